@@ -48,7 +48,12 @@ PickRequest == /\ stage = "request"
                /\ stage' = "run"
                /\ requested' \in (SUBSET Target) \ {{}}
                /\ UNCHANGED <<deps, executed, result>>
-SNext == PickGraph \/ PickRequest \/ (stage = "run" /\ MCNext)
+Running == stage = "run" /\ UNCHANGED stage
+RunStart  == Running /\ \E t \in Target : Start(t)
+RunLoop   == Running /\ Loop
+RunFinish == Running /\ Finish
+RunEnded  == Running /\ Terminated
+SNext == PickGraph \/ PickRequest \/ RunStart \/ RunLoop \/ RunFinish \/ RunEnded
 
 \* the clauses do not mention target names: graphs equal up to renaming are
 \* explored once when Target is a set of model values (safety configs only)
